@@ -83,6 +83,13 @@ class C18(Prop):
                 mshape = [rng.range(2, 4), rng.range(2, 5)]
                 ml = fortran(mshape) if mk == 2 else rng.choice(zoo(mshape, rng, 3)[1:])
             md = float_pool(rng.choice([1, 2, 1, 0]), prod(mshape), rng, fet)
+            if g % 5 == 0:
+                # non-finite observations, or finite ones whose sum overflows: every order k <= p must still agree bit
+                # for bit between the bulk and the single routine (orders 0 and 1 are the constants 1 and 0 in both)
+                big = 3.0e38 if fet == "f32" else 1.7e308
+                sp = rng.choice([[float("inf")], [float("nan")], [big, big], [float("-inf"), 1.0], [big, -big, big]])
+                for v in sp:
+                    md[rng.below(len(md))] = v
             p = rng.range(0, 10)
             b = mk_num_case("central_moments", fet, [(mshape, md, ml)], "%d" % p, order=p)
             b.grp, b.role, b.kind = "m%d" % g, "bulk", "mom"
